@@ -850,8 +850,12 @@ Definition text_denotes (num : numlit -> option (Z * bytes)) (s : bytes) (f : fi
   lex num s = Some (toks (JObj f)) /\ nodup_names (JObj f) = true
   /\ (jdepth (JObj f) <= recursion_limit)%nat.
 
-(* the main C09 equivalence with the JSON parser of the model in place: no
-   JSON parameter is left (only the float view of inexact number literals) *)
+(* the main C09 equivalence with the JSON parser of the model in place.  ONE
+   JSON parameter is left and it occurs on both sides: num, the float view of
+   the number literals (text_denotes num: the tokens lex num yields).  Which
+   literals the model decides itself and how far a verdict can depend on num:
+   proofs/JsonNumProofs.v.  Stated through the declarative grammar:
+   JsonNumProofs.verify_text_spells_iff. *)
 Theorem verify_text_iff num sig_valid keys o tok r :
   verify_text num sig_valid keys o tok = Some (VOk r) <->
   exists v, options_rule o v /\
